@@ -288,7 +288,7 @@ def cmd_codec(m, inp, out):
         elif e["ev"] == "triples":
             try:
                 t, h = m.deserialize_as_tree(blob, e["hashes"])
-                e["py"] = {"ok": True, "triples": [list(x) for x in t], "hashes": None if h is None else [list(x) for x in h]}
+                e["py"] = {"ok": True, "triples": [list(x) for x in t], "hashes": [] if h is None else [list(x) for x in h]}
             except ValueError as ex:
                 e["py"] = {"ok": False, "msg": ex.args[0] if ex.args else ""}
             except BaseException as ex:
@@ -598,11 +598,13 @@ def cmd_curry(mods, inp, out, cases_path):
             ev["curry_hash"] = list(mod.curry_hash(*[a.tree_hash() for a in pargs]))
             um, ua = c.uncurry()
             ev["un_mod"] = tree_to_json(walk(um))
-            ev["un_args"] = None if ua is None else [tree_to_json(walk(a)) for a in ua]
+            ev["un_none"] = ua is None
+            ev["un_args"] = [] if ua is None else [tree_to_json(walk(a)) for a in ua]
             # also through a serialization round trip (the usual way a curried puzzle is met)
             um2, ua2 = Program.from_bytes(bytes(c)).uncurry()
             ev["un2_mod"] = tree_to_json(walk(um2))
-            ev["un2_args"] = None if ua2 is None else [tree_to_json(walk(a)) for a in ua2]
+            ev["un2_none"] = ua2 is None
+            ev["un2_args"] = [] if ua2 is None else [tree_to_json(walk(a)) for a in ua2]
             ev["ok"] = True
         except BaseException as ex:
             ev["ok"] = False
@@ -616,7 +618,8 @@ def cmd_curry(mods, inp, out, cases_path):
             try:
                 um, ua = program_of(Program, t).uncurry()
                 u["mod"] = tree_to_json(walk(um))
-                u["args"] = None if ua is None else [tree_to_json(walk(a)) for a in ua]
+                u["none"] = ua is None
+                u["args"] = [] if ua is None else [tree_to_json(walk(a)) for a in ua]
                 u["ok"] = True
             except BaseException as ex:
                 u["ok"] = False
